@@ -107,9 +107,9 @@ summary = f"""## 9b. Summary in numbers (generated)
 * {len(fixes)} genuine defects of tefra/xsdata repaired by `fix:` commits (the 263 baseline tests pass unedited after each), {n_fixed} `fixed:` entries,
   {n_open} open known findings (each with a witness that the check re-finds on every run and, where the model reproduces it, a
   machine-checked refutation + guard clause);
-* {n_seeds} independently seeded breakages kept under `seeded/` (five rounds): {len(_sd["input"])} detected by their property's check with a
+* {n_seeds} independently seeded breakages kept under `seeded/` (six rounds): {len(_sd["input"])} detected by their property's check with a
   concrete failing input, {len(_sd["broken"])} only through a broken obligation / source tie ({", ".join(_sd["broken"]) or "none"}), {len(_sd["missed"])} not detected
-  ({", ".join(_sd["missed"]) or "none"}; see §13 round 5 for why), {len(_sd["superseded"])} superseded (`C05-m1` became an equivalent mutant after a repair);
+  ({", ".join(_sd["missed"]) or "none"}; see §13 rounds 5–6 for why), {len(_sd["superseded"])} superseded (`C05-m1` became an equivalent mutant after a repair);
 * `coqchk` over all property files: exit 0, no type-in-type, no unsafe fixpoints, no assumed positivity (§12b)."""
 built = built.replace("<<SUMMARY_NUMBERS>>", summary)
 parts = [plan, "\n---------------------------------------------------------------------------\n", built,
